@@ -9,6 +9,7 @@ import (
 	"testing/synctest"
 
 	"verif/sim/kernel"
+	"github.com/lianxiangcloud/linkchain/types"
 )
 
 func wallNow() int64 {
@@ -51,8 +52,20 @@ func TestSmoke(t *testing.T) {
 				if p {
 					return
 				}
-				w.Commit(b)
-				lap("commit")
+				wb, parts, _ := w.Wire(b)
+				lap("wire")
+				w.Chain.App.CheckBlock(wb)
+				lap("check")
+				id := types.BlockID{Hash: wb.Hash(), PartsHeader: parts.Header()}
+				seen := w.signCommit(w.Chain.Status.Validators, id, wb.Height)
+				lap("signcommit")
+				vals, err := w.Chain.App.CommitBlock(wb, parts, seen, false)
+				lap("CommitBlock")
+				st, err := w.Chain.BlockExec.ApplyBlock(w.Chain.Status.Copy(), id, wb, vals)
+				lap("ApplyBlock")
+				_ = err
+				w.Chain.Status = st
+				w.lastSeen = seen
 				w.Chain.Mempool.Reap(100)
 				lap("reap")
 			}
